@@ -184,6 +184,22 @@ pub fn main(opts: &Opts) {
     let mut rng = Rng::new(opts.seed);
     let mut sink = Sink::new();
     let cfg = if opts.extra.iter().any(|e| e == "pinned") { "pinned" } else { "fixed" };
+    if let Some(p) = &opts.replay {
+        // a replayed case is the hex of the hello text; only the correspondence row can be re-derived
+        for l in std::fs::read_to_string(p).unwrap().lines() {
+            if let Some(d) = l.strip_prefix("case\t") {
+                if let Some(Ok(text)) = unhex(d.split('\t').next().unwrap()).map(String::from_utf8) {
+                    let rt = tokio::runtime::Builder::new_current_thread().enable_all().build().unwrap();
+                    let (out, adv11) = rt.block_on(establish(&text));
+                    let spans = xmltok::spans(&text);
+                    sink.corr(&hexs(&text), format!("xml hello {cfg} {} {} {}", if adv11 { 1 } else { 0 }, xmltok::uri_oracle(&spans), xmltok::tokenize(&text)), out.clone());
+                    sink.sample(format!("{text} -> {out}"));
+                }
+            }
+        }
+        sink.write(opts, "hello");
+        return;
+    }
     let cases = gen(opts, &mut rng);
     let texts: Vec<String> = cases.iter().map(|c| c.xml()).collect();
     let results = run_pool(texts.clone(), 16, |text| {
